@@ -3,6 +3,7 @@ C17 — Functions that write into a caller's buffer only append to it.
 -/
 import JsonbModel.Proofs.SerLayout
 import JsonbModel.Proofs.SetRefine
+import JsonbModel.Proofs.AppendOnly
 
 namespace Jsonb.Props
 open Jsonb JV
@@ -40,5 +41,52 @@ theorem C17_array_distinct (vs : List JV) (hn : vs.length < 536870912) (hg : goo
 
 example : writeToVec [1, 2, 3] (.arr [.null, .str [0x61]]) =
     .ok ([1, 2, 3] ++ encodeSpec (.arr [.null, .str [0x61]])) := by decide
+
+/-! ### unconditional frame theorems: EVERY input (valid or not), every prior buffer
+
+A documented error has no buffer at all in the model (`Res Bytes`): nothing is appended. -/
+
+theorem C17_concat (left right buf : Bytes) :
+    Fn.concat left right buf = (Fn.concat left right []).map (buf ++ ·) := Fn.concat_frame left right buf
+theorem C17_delete_by_name (value name buf : Bytes) :
+    Fn.deleteByName value name buf = (Fn.deleteByName value name []).map (buf ++ ·) := Fn.deleteByName_frame value name buf
+theorem C17_delete_by_index_any (value : Bytes) (i : Int) (buf : Bytes) :
+    Fn.deleteByIndex value i buf = (Fn.deleteByIndex value i []).map (buf ++ ·) := Fn.deleteByIndex_frame value i buf
+theorem C17_delete_by_keypath (value : Bytes) (kp : List KeyPath) (buf : Bytes) :
+    Fn.deleteByKeypath value kp buf = (Fn.deleteByKeypath value kp []).map (buf ++ ·) := Fn.deleteByKeypath_frame value kp buf
+theorem C17_array_insert (value : Bytes) (pos : Int) (new buf : Bytes) :
+    Fn.arrayInsert value pos new buf = (Fn.arrayInsert value pos new []).map (buf ++ ·) := Fn.arrayInsert_frame value pos new buf
+theorem C17_object_insert (value key new : Bytes) (update : Bool) (buf : Bytes) :
+    Fn.objectInsert value key new update buf = (Fn.objectInsert value key new update []).map (buf ++ ·) :=
+  Fn.objectInsert_frame value key new update buf
+theorem C17_object_delete_pick (pick : Bool) (value : Bytes) (keys : List Bytes) (buf : Bytes) :
+    Fn.objectFilter pick value keys buf = (Fn.objectFilter pick value keys []).map (buf ++ ·) :=
+  Fn.objectFilter_frame pick value keys buf
+theorem C17_strip_nulls (value buf : Bytes) :
+    Fn.stripNulls value buf = (Fn.stripNulls value []).map (buf ++ ·) := Fn.stripNulls_frame value buf
+theorem C17_array_distinct_any (value buf : Bytes) :
+    Fn.arrayDistinct value buf = (Fn.arrayDistinct value []).map (buf ++ ·) := Fn.arrayDistinct_frame value buf
+theorem C17_array_intersection_except (keep : Bool) (v1 v2 buf : Bytes) :
+    Fn.arraySetOp keep v1 v2 buf = (Fn.arraySetOp keep v1 v2 []).map (buf ++ ·) := Fn.arraySetOp_frame keep v1 v2 buf
+theorem C17_build_array (items : List Bytes) (buf : Bytes) :
+    Fn.buildArray items buf = (Fn.buildArray items []).map (buf ++ ·) := Fn.buildArray_frame items buf
+theorem C17_build_object (items : List (Bytes × Bytes)) (buf : Bytes) :
+    Fn.buildObject items buf = (Fn.buildObject items []).map (buf ++ ·) := Fn.buildObject_frame items buf
+theorem C17_convert_to_comparable (value buf : Bytes) :
+    Fn.convertToComparable value buf = (Fn.convertToComparable value []).map (buf ++ ·) :=
+  convertToComparable_frame value buf
+
+/-- **path selection in every mode, predicate paths too**: prior data and prior offsets are
+prefixes of the results, the appended bytes are those of the empty-buffer call, and the reported
+offsets are positions in that same buffer -/
+theorem C17_select (jp : JsonPath) (mode : Sel.Mode) (root data : Bytes) (offs : List Nat) (fuel : Nat) :
+    Sel.select jp mode root data offs fuel
+      = (Sel.select jp mode root [] [] fuel).map (fun r => (data ++ r.1, offs ++ r.2.map (· + data.length))) :=
+  Sel.select_frame jp mode root data offs fuel
+
+/-- the public functions including their text branch: e.g. `convert_to_comparable`, `get_by_path*` -/
+theorem C17_T_convert_to_comparable (value buf : Bytes) :
+    T.convertToComparable value buf = (T.convertToComparable value []).map (buf ++ ·) :=
+  T_convertToComparable_frame value buf
 
 end Jsonb.Props
